@@ -486,6 +486,20 @@ Proof.
   pose proof (cnt_set_nth _ b (Some sb) (Some sa) b0 Hb1) as H2. lia.
 Qed.
 
+(* a temporary: allocated and freed again, the tables unchanged *)
+Lemma linv_tmp s s' strs n : linv s strs -> eff s s' 1 [EAlloc (snext s) n; EFree (snext s)] -> linv s' strs.
+Proof.
+  intros [A B C D] [E1 E2].
+  assert (Hz : cnt (owned strs) (snext s) = 0%nat).
+  { destruct (cnt (owned strs) (snext s)) eqn:E; [reflexivity|]. assert (H : (cnt (owned strs) (snext s) > 0)%nat) by lia. apply B in H. lia. }
+  split; [lia| |exact C|].
+  - intros b H. apply B in H. lia.
+  - rewrite E2. change [EAlloc (snext s) n; EFree (snext s)] with ([EAlloc (snext s) n] ++ [EFree (snext s)]). rewrite app_assoc.
+    pose proof (logst_alloc _ _ (snext s) n D Hz ltac:(lia)) as L1.
+    assert (L2 := logst_free _ _ (snext s) L1). cbv beta in L2. rewrite Nat.eqb_refl in L2. specialize (L2 ltac:(lia)).
+    eapply logst_ext; [|exact L2]. intros b. cbv beta. destruct (Nat.eqb_spec b (snext s)) as [->|]; [symmetry; exact Hz|reflexivity].
+Qed.
+
 Lemma do_op_keeps w o : winv w -> keeps w (do_op w o).
 Proof.
   intros Hw. destruct o; cbn [do_op].
@@ -565,6 +579,20 @@ Proof.
     eapply linv_cnt_ext; [|exact Hw]. apply cnt_swap; apply get_str_nth; assumption.
   - (* OSDel *) destruct (get_str w k) as [x|] eqn:Ek; [|apply keeps_bad; exact Hw].
     eapply keeps_release; [exact Hw|exact Ek|reflexivity].
+  - (* OSMoveCtor: a copy *) destruct (get_str w k) as [x|] eqn:Ek; [|apply keeps_bad; exact Hw].
+    unfold keeps. eapply pM_bind; [apply p_copy|]. cbv beta. intros r s1 (Hr & n & E).
+    unfold retO, pM. cbn [snd]. unfold winv, apply_effect. cbn [wst wstrs]. eapply linv_new; eassumption.
+  - (* OSMoveAssign: operator= on a copy *) destruct (get_str w d) as [sd|] eqn:Ed; [|apply keeps_bad; exact Hw].
+    destruct (get_str w s) as [ss|]; [|apply keeps_bad; exact Hw].
+    unfold keeps. eapply pM_bind; [apply p_assign|]. cbv beta. intros r s1 (Hr & n & E).
+    unfold retO, pM. cbn [snd]. unfold winv, apply_effect. cbn [wst wstrs].
+    eapply linv_replace; try eassumption. apply get_str_nth. exact Ed.
+  - (* OSByVal: a temporary copy *) destruct (get_str w k) as [x|] eqn:Ek; [|apply keeps_bad; exact Hw].
+    unfold keeps. eapply pM_bind; [apply p_copy|]. cbv beta. intros r s1 (Hr & n & E1).
+    eapply pM_bind; [apply p_destroy|]. cbv beta. intros u s2 E2. apply pM_ret. cbn [snd].
+    unfold winv, apply_effect. cbn [wst wstrs]. rewrite Hr in E2. cbn [free_evs] in E2.
+    eapply linv_tmp; [exact Hw|]. exact (eff_trans _ _ _ _ _ _ _ E1 E2).
+  - (* OTraits *) unfold keeps. apply pM_ret. unfold winv, apply_effect. cbn [snd wst wstrs]. exact Hw.
 Qed.
 
 (* ---- whole scripts *)
